@@ -20,12 +20,24 @@ EXPLANATION = __doc__
 
 
 def removal_nests(fn):
-    """[(outer_loop, N term text, X text, call, ok_shape, why)] for `for i in range(N): for j in range(i+1, N): self.remove_edge(X[i], X[j])`."""
+    """[(outer_loop, N term text, X text, call, ok_shape, why)] for `for i in range(N): for j in range(i+1, N): self.remove_edge(X[i], X[j])`
+    (N is reported as `len(X)` when it is that expression or a local bound once to it), and for the equivalent
+    `for a, b in combinations(X, 2): self.remove_edge(a, b)`."""
     out = []
     par = astx.Parents(fn.node)
+    sc_ = Scope(fn.node)
     for n in astx.walk_fn(fn.node):
         if isinstance(n, ast.Call) and txt(n.func) == "self.remove_edge" and len(n.args) == 2:
             loops = par.loops_of(n)
+            if loops:
+                it0 = sc_.resolve(loops[0].iter)
+                bc = match(pat("combinations($x, 2)"), it0) or match(pat("itertools.combinations($x, 2)"), it0)
+                tg = loops[0].target
+                if bc is not None and isinstance(tg, ast.Tuple) and len(tg.elts) == 2:
+                    X_ = txt(bc["x"])
+                    okc = sorted(txt(a) for a in n.args) == sorted(txt(e) for e in tg.elts)
+                    out.append((loops[0], f"len({X_})", X_, n, okc, "" if okc else f"removes ({txt(n.args[0])}, {txt(n.args[1])}), not the pair drawn from combinations({X_}, 2)"))
+                    continue
             if len(loops) < 2:
                 out.append((None, None, None, n, False, "remove_edge is not inside an i<j loop nest"))
                 continue
@@ -52,8 +64,27 @@ def removal_nests(fn):
                     ok, why = False, f"removes ({txt(a0)}, {txt(a1)}), not the pair (X[{i}], X[{j}])"
             else:
                 ok, why = False, "arguments are not X[i], X[j] of one clique"
-            out.append((il, txt(bi["n"]) if bi else None, X, n, ok, why))
+            Ntxt = txt(bi["n"]) if bi else None
+            if bi is not None and X is not None and txt(sc_.resolve(bi["n"], keep=tuple(astx.names_in(ast.parse(X, mode="eval")))) ) == f"len({X})":
+                Ntxt = f"len({X})"
+            out.append((il, Ntxt, X, n, ok, why))
     return out
+
+
+def _sweep_of_cover(par, il, X):
+    """The nest (outer loop il, clique expression X) runs for EVERY clique of EC: `for c in range(len(EC))` with
+    X = EC[c], or `for X in EC` / `for _, X in enumerate(EC)`."""
+    outer = [l for l in par.loops_of(il) if isinstance(l, ast.For)]
+    if not outer or X is None:
+        return None
+    lp = outer[0]
+    if X.startswith("EC[") and X.endswith("]"):
+        return txt(lp.iter) == "range(len(EC))" and txt(lp.target) == X[3:-1]
+    if txt(lp.iter) in ("EC", "list(EC)") and txt(lp.target) == X:
+        return True
+    if txt(lp.iter) == "enumerate(EC)" and isinstance(lp.target, ast.Tuple) and len(lp.target.elts) == 2 and txt(lp.target.elts[1]) == X:
+        return True
+    return None
 
 
 def run(ctx):
@@ -162,19 +193,14 @@ def run(ctx):
                     else:
                         o.undecided(f"removal bound `{N}` could not be related to len({cli})", ge, il)
         # (b) score-0 cliques appended in compute_scores: sweep over all of EC after every compute_scores call
-        sweeps = [n for n in good if n[2] and n[2].startswith("EC[")]
+        sweeps = [n for n in good if n[2] and _sweep_of_cover(par, n[0], n[2]) is not None]
         cs_calls = [par.stmt_of(n) for n in astx.walk_fn(ge.node) if isinstance(n, ast.Call) and txt(n.func) == "self.compute_scores"]
         for call_st in cs_calls:
             blk = wl.body if par.inside(call_st, wl) else ge.body
             after = [n for n in sweeps if any(_top(par, n[0], blk_owner(par, call_st, wl, ge)) is s for s in blk[blk.index(call_st) + 1:])]
             if after:
                 il, N, X, call, _, _ = after[0]
-                outer = par.loops_of(il)
-                idxv = X[3:-1]
-                full = outer and txt(outer[0].iter) == "range(len(EC))" and txt(outer[0].target) == idxv and Scope(ge.node).rtxt(ast.parse(N, mode="eval").body) in (f"len({X})",)
-                if not full:
-                    # N may be a temp `order = len(EC[c])`
-                    full = outer and txt(outer[0].iter) == "range(len(EC))" and txt(outer[0].target) == idxv and _n_is_len(par, il, N, X)
+                full = bool(_sweep_of_cover(par, il, X)) and (N == f"len({X})" or _n_is_len(par, il, N, X))
                 if full:
                     o.holds(ge, call, "after compute_scores every cover clique (incl. the new score-0 ones) has all its pairs removed")
                 else:
@@ -289,11 +315,26 @@ def run(ctx):
                     o.holds(ge, ch[0], "choice over {idx in argmin r : ord[idx] == max ord over argmin r}")
                     # max_ord is the maximum of ord over min_r_set
                     mname = txt(b["m"])
+                    if not isinstance(b["m"], ast.Name):
+                        bm = match(pat("max(ord[$i] for $i in $src)"), b["m"]) or match(pat("max([ord[$i] for $i in $src])"), b["m"])
+                        if bm is not None and txt(sc.resolve(bm["src"])) == txt(src):
+                            o.holds(ge, ch[0], "threshold = max of ord over the minimum-score set")
+                        elif match(pat("min(ord[$i] for $i in $src)"), b["m"]) is not None:
+                            o.violated(ge, ch[0], "the threshold is the MINIMUM size among the minimum-score candidates")
                     mx = [n for n in ast.walk(wl) if isinstance(n, ast.If) and rules.compare_with_pivot(n.test, lambda x: txt(x) == mname) is not None]
                     if mx and rules.compare_with_pivot(mx[0].test, lambda x: txt(x) == mname)[0] == "<":
                         o.holds(ge, mx[0], f"`{mname}` is the running maximum of ord over the minimum-score set")
                     elif mx:
                         o.violated(ge, mx[0], f"`{mname}` is not the maximum size among the minimum-score candidates: `{txt(mx[0].test)}`")
+                    else:
+                        # closed form: max_ord = max(ord[idx] for idx in <the minimum-score set>)
+                        md = [s_ for s_ in ast.walk(wl) if isinstance(s_, (ast.Assign, ast.AnnAssign)) and txt(s_.targets[0] if isinstance(s_, ast.Assign) else s_.target) == mname]
+                        if len(md) == 1:
+                            bm = match(pat("max(ord[$i] for $i in $src)"), md[0].value) or match(pat("max([ord[$i] for $i in $src])"), md[0].value)
+                            if bm is not None and txt(sc.resolve(bm["src"])) == txt(L.generators[0].iter):
+                                o.holds(ge, md[0], f"`{mname}` = max of ord over the minimum-score set")
+                            elif match(pat("min(ord[$i] for $i in $src)"), md[0].value) is not None:
+                                o.violated(ge, md[0], f"`{mname}` is the MINIMUM size among the minimum-score candidates")
                 elif srcb is None and b is not None:
                     t = txt(src)
                     if "max(r)" in t:
@@ -307,7 +348,32 @@ def run(ctx):
 
     with ctx.obligation("C09.6", "the overlap test looks at every other clique", floor=2) as o:
         wls = [n for n in astx.walk_fn(cs.node) if isinstance(n, ast.While)]
-        if len(wls) != 1:
+        anys = [n for n in astx.walk_fn(cs.node) if isinstance(n, ast.Call) and txt(n.func) == "any" and len(n.args) == 1 and isinstance(n.args[0], (ast.GeneratorExp, ast.ListComp))
+                and "issubset" in txt(n.args[0].elt) and len(n.args[0].generators) == 1]
+        if not wls and len(anys) == 1:
+            # closed form of the scan: any(n != c and {u, v}.issubset(C[n]) for n in range(len(C)))
+            g_ = anys[0].args[0].generators[0]
+            scs_ = Scope(cs.node)
+            it_ = scs_.resolve(g_.iter)
+            b_ = match(pat("range($n)"), it_) or match(pat("range(0, $n)"), it_)
+            nv_ = txt(g_.target)
+            conj = anys[0].args[0].elt.values if isinstance(anys[0].args[0].elt, ast.BoolOp) and isinstance(anys[0].args[0].elt.op, ast.And) else [anys[0].args[0].elt]
+            conj = list(conj) + list(g_.ifs)
+            if b_ is None:
+                o.undecided(f"scan domain `{txt(it_)}` not recognised", cs, anys[0])
+            else:
+                bound = rules.term_of(b_["n"], scs_)
+                if bound == tm.parse("len(C)"):
+                    o.holds(cs, anys[0], f"any(...) over every clique index {nv_} in range(len(C))")
+                    o.holds(cs, anys[0], "no early exit other than 'overlap found'")
+                elif not tm.has_opaque(bound):
+                    o.violated(cs, anys[0], f"the scan covers range({tm.show(bound)}), not every clique: an overlapping clique is overlooked, both get score 0 and their shared edge is covered twice")
+                else:
+                    o.undecided("scan bound not understood", cs, anys[0])
+                skip = [v for v in conj if isinstance(v, ast.Compare) and nv_ in astx.names_in(v) and isinstance(v.ops[0], ast.NotEq)]
+                if not skip:
+                    o.violated(cs, anys[0], "the clique is compared with itself: every edge counts as overlapping")
+        elif len(wls) != 1:
             o.undecided("inner scan loop not found", cs)
         else:
             w = wls[0]
